@@ -126,11 +126,15 @@ func (e *Exec) doGo(g *Goroutine, fr *Frame, c *ssa.CallCommon) {
 	if fv == nil || fv.Bi != nil {
 		unsup("go statement on nil/builtin")
 	}
-	if len(e.gs) >= 256 {
-		e.endPath("budget", "more than 256 goroutines")
+	if len(e.gs) >= 2048 {
+		e.endPath("budget", "more than 2048 goroutines")
 	}
 	ng := &Goroutine{id: len(e.gs)}
 	e.gs = append(e.gs, ng)
+	if e.raceOn {
+		ng.vc = e.sendVC() // the go statement happens before the start of the goroutine
+		e.gvc(ng)
+	}
 	target := e.resolveModel(fv.Fn)
 	if h := e.lookupIntrinsic(target); h != nil {
 		unsup("go on intrinsic %s", target)
@@ -232,6 +236,9 @@ func (e *Exec) callBuiltin(fr *Frame, b *ssa.Builtin, args []Value, c *ssa.CallC
 			e.goPanic("close of closed channel")
 		}
 		ch.C.closed = true
+		if e.raceOn {
+			ch.C.closeVC = vcJoin(ch.C.closeVC, e.sendVC())
+		}
 		return nil
 	case "panic":
 		v := args[0]
